@@ -3,7 +3,10 @@
    (rendered to YANG by the harness) and, for every judged path, the verdict in
    both modes: accepted or the index of the first offending element, together
    with the phase the walk machine was in when it met that element (names the
-   disagreement class when the code differs).  Shape 100: NRand schemas sampled
+   disagreement class when the code differs).  A path through a list with several
+   keys past its first key value has no prescribed verdict (at = -1, phase "unjudged"):
+   it is left out when that holds in both modes (counted in spu_N), else the one mode is
+   marked.  Shape 100: NRand schemas sampled
    with RandomElement (-seed), written without verdicts: the harness walks them
    with seeded random paths and SchemaPathTrace judges the recorded events.
    One initial state per shape so that all TLC workers are used.               *)
@@ -17,13 +20,16 @@ Vec(sch, p) == [p |-> p, s |-> V(sch, p, FALSE), i |-> V(sch, p, TRUE)]
 Sfx(n) == ToString(n) \o ".ndjson"
 
 RECURSIVE RandSchemas(_)
-RandSchemas(n) == IF n = 0 THEN << >> ELSE RandSchemas(n - 1) \o <<[id |-> 1000 + n, kids |-> RandSchema(RandDepth, "path")]>>
+RandSchemas(n) == IF n = 0 THEN << >> ELSE RandSchemas(n - 1) \o <<[id |-> 1000 + n, kids |-> RandSchema(RandDepth, "keys")]>>
 
 GInit == shape \in Shapes /\ done = FALSE
 GNext == /\ ~done /\ done' = TRUE /\ UNCHANGED shape
          /\ IF shape = 100
             THEN ndJsonSerialize("sprand.ndjson", RandSchemas(NRand))
-            ELSE LET sch == PathShape(shape) IN
+            ELSE LET sch == PathShape(shape)
+                     all == PathsFor(sch, MaxLen, Ext, FullTails)
+                     jud == JudgedPaths(sch, all) IN
                  /\ ndJsonSerialize("sps_" \o Sfx(shape), <<[id |-> shape, kids |-> sch]>>)
-                 /\ ndJsonSerialize("spv_" \o Sfx(shape), SetToSeq({Vec(sch, p) : p \in PathsFor(sch, MaxLen, Ext, FullTails)}))
+                 /\ ndJsonSerialize("spv_" \o Sfx(shape), SetToSeq({Vec(sch, p) : p \in jud}))
+                 /\ ndJsonSerialize("spu_" \o Sfx(shape), <<[id |-> shape, paths |-> Cardinality(all), judged |-> Cardinality(jud)]>>)
 =============================================================================
